@@ -148,6 +148,13 @@ impl Store {
         }
     }
 
+    /// Verification hook: create or open a store on an arbitrary redb storage backend.
+    #[cfg(feature = "verif-hooks")]
+    pub fn verif_with_backend(backend: impl redb::StorageBackend) -> Result<Self> {
+        let db = Database::builder().create_with_backend(backend)?;
+        Self::new_impl(db)
+    }
+
     fn new_impl(db: redb::Database) -> Result<Self> {
         // Setup all tables
         let write_tx = db.begin_write()?;
@@ -228,6 +235,17 @@ impl Store {
     /// already persisted.
     fn tables(&mut self) -> Result<&Tables<'_>> {
         let guard = &mut self.transaction;
+        #[cfg(feature = "verif-hooks")]
+        if let CurrentTransaction::Write(w) = &mut *guard {
+            if crate::verif::txn_age_now() {
+                if let Some(t) = w
+                    .since
+                    .checked_sub(MAX_COMMIT_DELAY + std::time::Duration::from_millis(1))
+                {
+                    w.since = t;
+                }
+            }
+        }
         let tables = match std::mem::take(guard) {
             CurrentTransaction::None => {
                 let tx = self.db.begin_write()?;
@@ -265,6 +283,17 @@ impl Store {
     /// or call flush.
     fn modify<T>(&mut self, f: impl FnOnce(&mut Tables) -> Result<T>) -> Result<T> {
         let guard = &mut self.transaction;
+        #[cfg(feature = "verif-hooks")]
+        if let CurrentTransaction::Write(w) = &mut *guard {
+            if crate::verif::txn_age_now() {
+                if let Some(t) = w
+                    .since
+                    .checked_sub(MAX_COMMIT_DELAY + std::time::Duration::from_millis(1))
+                {
+                    w.since = t;
+                }
+            }
+        }
         let tables = match std::mem::take(guard) {
             CurrentTransaction::None => {
                 let tx = self.db.begin_write()?;
